@@ -230,3 +230,38 @@ package diam
 //@   ensures [C02] prepended: len(m.AVP) == old(len(m.AVP)) + 1 && m.AVP[0] == a
 //@   ensures [C02] kept: forall i int :: 0 <= i && i < old(len(m.AVP)) ==> m.AVP[i + 1] == old(m.AVP[i])
 //@ end
+//@
+//@ func (*Message).NewAVP(m, code, flags, vendor, data) (a, err)
+//@   property C02 C16
+//@   requires m != nil && m.Header != nil && data != nil && valid(data)
+//@   requires nongroup: !typeis(data, *GroupedAVP)
+//@   requires codetype: typeis(code, int) || typeis(code, uint32) || typeis(code, string)
+//@   modifies m.AVP, m.Header.MessageLength
+//@   ensures [C02] numeric_code_ok: typeis(code, int) || typeis(code, uint32) ==> err == nil
+//@   ensures [C02] made: err == nil ==> a != nil && fresh(a) && a.Data == data && a.VendorID == vendor && a.Flags == (vendor > 0 ? flags | 0x80 : flags)
+//@   ensures [C02] code_num: err == nil && typeis(code, uint32) ==> a.Code == code.(uint32)
+//@   ensures [C02] code_int: err == nil && typeis(code, int) ==> a.Code == uint32(code.(int))
+//@   ensures [C02] length_delta: err == nil ==> m.Header.MessageLength == old(m.Header.MessageLength) + uint32(avplen(a))
+//@   ensures [C02] appended: err == nil ==> len(m.AVP) == old(len(m.AVP)) + 1 && m.AVP[old(len(m.AVP))] == a
+//@   ensures [C02] kept: err == nil ==> forall i int :: 0 <= i && i < old(len(m.AVP)) ==> m.AVP[i] == old(m.AVP[i])
+//@   ensures [C02] failed: err != nil ==> m.Header.MessageLength == old(m.Header.MessageLength) && len(m.AVP) == old(len(m.AVP))
+//@ end
+//@
+//@ # C16: an answer mirrors its request
+//@ func (*Message).Answer(m, resultCode) (nm)
+//@   property C16
+//@   requires m != nil && m.Header != nil
+//@   modifies
+//@   ensures shape: nm != nil && fresh(nm) && nm.Header != nil && fresh(nm.Header)
+//@   ensures [C16] command: nm.Header.CommandCode == m.Header.CommandCode && nm.Header.ApplicationID == m.Header.ApplicationID
+//@   ensures [C16] hop_by_hop_mirrored: nm.Header.HopByHopID == m.Header.HopByHopID
+//@   ensures [C16] end_to_end_mirrored: nm.Header.EndToEndID == m.Header.EndToEndID
+//@   ensures [C16] flags: nm.Header.CommandFlags == m.Header.CommandFlags &^ 0x80
+//@   ensures [C16] result_code: resultCode != 0 ==> len(nm.AVP) == 1 && nm.AVP[0].Code == 268 && nm.AVP[0].Flags == 0x40 && nm.AVP[0].VendorID == 0 &&
+//@           typeis(nm.AVP[0].Data, datatype.Unsigned32) && uint32(nm.AVP[0].Data.(datatype.Unsigned32)) == resultCode
+//@   ensures [C16] no_result_code: resultCode == 0 ==> len(nm.AVP) == 0
+//@   ensures [C16] stream: nm.stream == m.stream
+//@   ensures [C02] length: nm.Header.MessageLength == uint32(resultCode != 0 ? 32 : 20)
+//@   replay hop_by_hop_mirrored: r0.Header.HopByHopID == RECV.Header.HopByHopID
+//@   replay end_to_end_mirrored: r0.Header.EndToEndID == RECV.Header.EndToEndID
+//@ end
